@@ -276,7 +276,12 @@ def place(strings, forms, col, stats):
                 ss = block[r:] + block[:r]
                 stats["parses"] += 1
                 stats["placements"] += arity
-                built = build(ss)
+                try:
+                    built = build(ss)
+                except Exception as ex:
+                    col.add("P0 a text handed to with_action / from_arguments stays a string argument with that text", "parse/encode: " + fname.split(" level")[0].split("(")[0],
+                            size=sum(map(len, ss)) * 10, form=fname, strings=show(ss), observed="the builder raised %s: %s" % (type(ex).__name__, str(ex)[:80]))
+                    continue
                 # P0: the builders keep every given text as a *string* argument with exactly that text (never re-read as a link / entity)
                 kept = [v for (pth, v) in args_of(built) if isinstance(v, str) and (".p" in pth or ".hp" in pth)]
                 lost = [x for x in ss if x not in kept]
